@@ -4,6 +4,7 @@ import json, os, sys
 ROOT = os.path.join(os.path.dirname(os.path.abspath(__file__)), "..")
 sys.path.insert(0, os.path.dirname(os.path.abspath(__file__)))
 import propcfg
+import rs2lean_spec
 ALL = [f"C{i:02d}" for i in range(1, 21)]
 checks = []
 for pid in ALL:
@@ -19,7 +20,9 @@ for pid in ALL:
         "engine": "lean-proof+correspondence",
         "level_claimed": {"category": "proof", "text": c["level_text"], "design_ref": f"DESIGN.md §6 {pid}"},
         "level_note": c["level_note"],
-        "technique": c.get("technique", "Lean 4 theorems about a hand-written model + differential correspondence run against the Rust implementation"),
+        "technique": c.get("technique", "Lean 4 theorems about a hand-written model; model tied to the source on every run by " + (
+            f"(a) a Rust-to-Lean translator (tools/rs2lean.py) whose regenerated definitions of {len(rs2lean_spec.SPEC[pid]['fns'])} function(s) are proved equal to the model (Props/{pid}T.lean) and (b) "
+            if pid in rs2lean_spec.SPEC else "") + "a differential correspondence run against the Rust implementation"),
     })
 na = [{"property_id": p, "reason": propcfg.NOT_YET.get(p, "check not built yet (work in progress; see DESIGN.md §7.4 for the order)")}
       for p in ALL if p not in [c["property_id"] for c in checks]]
@@ -35,7 +38,7 @@ m = {
     },
     "engines": [{"name": "lean-proof+correspondence", "path": "/verif/check",
                  "serves_properties": [c["property_id"] for c in checks],
-                 "kind_free_text": "Lean 4.33 theorems (lean/Engeom/Engeom/Props) about a polymorphic hand-written model (Model/), executed at Float by a compiled driver and compared with the real crate by the Rust harness (harness/); constants regenerated from source (tools/extract.py)"}],
+                 "kind_free_text": "Lean 4.33 theorems (lean/Engeom/Engeom/Props) about a polymorphic hand-written model (Model/), executed at Float by a compiled driver and compared with the real crate by the Rust harness (harness/); constants and tables regenerated from source (tools/extract.py); scalar functions re-translated from source (tools/rs2lean.py) and proved equal to the model (Props/*T.lean)"}],
     "checks": checks,
     "notes": "See DESIGN.md. Known findings: KNOWN_FINDINGS.txt.",
     "not_applicable": na,
